@@ -44,6 +44,11 @@ def make_input(B, layout, n, p, cplx=False, flags=None, name="x", nan_cols=(), n
         X = B.array((n1, n2, p), name, cplx)
         da = xr.DataArray(X, dims=("t1", "t2", "x"), coords={"t1": ["a", "b"][:n1], "t2": list(range(n2)), "x": XS[:p]}, name="v_" + name)
         return da, ("t1", "t2"), ("x",)
+    if layout == "stacked-sample-ym":
+        # user MultiIndex whose level names are NOT in alphabetical order
+        X = B.array((2, 2, p), name, cplx)
+        da = xr.DataArray(X, dims=("year", "month", "x"), coords={"year": [2001, 2000], "month": [12, 1], "x": XS[:p]}, name="v_" + name)
+        return da.stack(time=("year", "month")), "time", ("x",)
     if layout == "stacked-sample":
         n1 = 2
         n2 = (n + 1) // 2
